@@ -75,6 +75,9 @@ def model_checking(ctx):
     jobs.append(("proc", "Listener", "MC_Listener_nopublish_stop.cfg", stuck, False, False))
     jobs.append(("proc", "Listener", "MC_Listener_nopublish_drain.cfg", ["DrainStopsAccepting"], False, False))
     jobs.append(("proc", "Listener", "MC_Listener_nostats.cfg", ["ConnStatsConserved"], False, False))
+    # anti-vacuity mutants of the code as it is: check-then-act addConn, Stop that only copies the registry
+    jobs.append(("proc", "Listener", "MC_Listener_nonatomic_add.cfg", ["LimitRespected"], False, False))
+    jobs.append(("proc", "Listener", "MC_Listener_copyregistry.cfg", stuck, False, False))
     if ctx.thorough:
         jobs.append(("proc", "Listener", "MC_Listener_pinned.cfg", stuck + ["DrainStopsAccepting", "ConnStatsConserved"], False, False))
     jobs.append(("proc", "RedisStop", "MC_RedisStop_fixed.cfg", None, True, True))
@@ -93,7 +96,7 @@ def model_checking(ctx):
         res = list(ex.map(one, jobs))
     for (sub, mod, cfg, exp, count, cov), r in res:
         if cov and r.coverage:
-            ctx.check_vacuity(r, mod)
+            ctx.check_vacuity(r, mod, ignore=("HAddCheck", "HAddInsert"))   # the two steps of the addConn mutant
     # every named window must be reachable: one pass records the windows in TLC registers (single worker),
     # the post-condition prints the unreached ones
     def trap(t):
@@ -146,7 +149,7 @@ def beh_key(b):
     return json.dumps([b["limit"], b["busy"], [(s["a"], s["h"]) for s in b["steps"]]])
 
 
-NOSTOP_WINDOWS = ["W_StopBetweenBindAndPublish/stop2-first", "W_DrainBeforeBind/nostop", "W_DrainDuringRetry/nostop", "W_DrainBetweenBindAndPublish/nostop",
+NOSTOP_WINDOWS = ["W_AddAfterStop/idle", "W_StopBetweenBindAndPublish/stop2-first", "W_DrainBeforeBind/nostop", "W_DrainDuringRetry/nostop", "W_DrainBetweenBindAndPublish/nostop",
                   "W_DrainWithActiveConns/nostop"]
 
 
@@ -163,6 +166,14 @@ def beh_windows(b):
     # the pinned code reads l.ln in the section released by Stop2 (the repaired code in Stop1): make sure that
     # schedules in which that section precedes the publication are replayed as well
     acts = [s["a"] for s in b["steps"]]
+    # a connection that reaches addConn after Stop has looked at the registry, whose peer stays idle for the
+    # rest of the behaviour (the handler only ends when its connection is closed): if it were admitted,
+    # nothing would ever close it and Stop would wait for ever
+    closers = {s["h"] for s in b["steps"] if s["a"] == "PeerClose"}
+    for s in b["steps"]:
+        if "W_AddAfterStop" in s["win"]:
+            if any(pc == "add" and h not in closers for h, pc in s["obs"]["hs"].items()):
+                w.add("W_AddAfterStop/idle")
     # (and no Drain looks at l.ln after the publication: it would close the socket and let Stop return)
     if "Stop2" in acts and "SrvPublish" in acts and acts.index("Stop2") < acts.index("SrvPublish") and \
             ("Drain1" not in acts or acts.index("Drain1") < acts.index("SrvPublish")):
@@ -362,7 +373,9 @@ def run(ctx):
         "bounded model: 2 (3) connections, limit 0/1 (2), one Stop, one Drain, port busy or free, at most 2 refresh rounds",
         "reads of l.ln are atomic in the model (a stale read after publication is not modelled); no temporary accept errors",
         "Serve is called once per listener (Start always spawns it) and Stop is called after Start",
-        "kernel behaviour on loopback trusted: closing a listening socket resets queued connections, a plain bind fails while another process holds the port",
+        "kernel behaviour on loopback trusted: closing a listening socket resets the connections queued on it (measured here: about 1 % of the "
+        "dials that race with the close are left half-open at the peer without a RST; such a connection was never handed to the listener and is "
+        "not counted as one of its connections - the driver pokes it and the kernel then resets it), a plain bind fails while another process holds the port",
         "liveness oracle: Stop/Drain must return within 1.5 s, hung cases are re-run once with 10 s before a verdict",
     ]
     if getattr(ctx, "replay_file", None):
@@ -393,7 +406,10 @@ def run_conformance(ctx, t0, mc_future):
     ff = os.path.join(ctx.work, "freejobs.ndjson")
     ctx.harness(["c09-freejobs", "-out", ff, "-n", "400" if ctx.thorough else "24", "-deadlineMs", "1500"])
     free = kit.read_ndjson(ff)
-    all_jobs = jobs + scen + free
+    bf = os.path.join(ctx.work, "burstjobs.ndjson")
+    ctx.harness(["c09-burstjobs", "-out", bf])
+    burst = kit.read_ndjson(bf)
+    all_jobs = jobs + scen + free + burst
     by_id = {j["id"]: j for j in all_jobs}
     results = run_jobs(ctx, all_jobs, "all", workers=12, long_ms=10000, rerun_cap=3 if ctx.thorough else 1,
                        timeout=1500 if ctx.thorough else 240)
@@ -404,11 +420,13 @@ def run_conformance(ctx, t0, mc_future):
     rep = [r for r in results if r["kind"] == "replay"]
     prc = [r for r in results if r["kind"] == "proc"]
     fre = [r for r in results if r["kind"] == "free"]
+    bur = [r for r in results if r["kind"] == "burst"]
     ctx.cov["behaviours"] = {"emitted": n_emitted, "distinct": len(uniq), "selected": len(behs),
                              "per_window": {w: sum(1 for b in behs if w in beh_windows(b)) for w in LISTENER_WINDOWS + NOSTOP_WINDOWS}}
     conf = confirmed_signatures(results)
     for att in (2, 1):   # confirmed cases first
-        for label, key, lst in (("replay", "replay", rep), ("processor", "scenarios", prc), ("free", "free", fre)):
+        for label, key, lst in (("replay", "replay", rep), ("processor", "scenarios", prc), ("free", "free", fre),
+                                ("burst", "burst", bur)):
             part = evaluate(ctx, by_id, [r for r in lst if (r.get("attempt", 1) >= 2) == (att == 2)], label, conf)
             tot = ctx.cov.setdefault(key, {})
             for k, v in part.items():
@@ -420,7 +438,7 @@ def run_conformance(ctx, t0, mc_future):
     ctx.cov["listener_stats"]["conserved"] = sum(1 for r in ls if r.get("conserved"))
     ctx.cov["listener_stats"]["not_conserved"] = sum(1 for r in ls if r.get("conserved") is False)
     # samples
-    for r in rep[:2] + prc[:2] + fre[:1]:
+    for r in rep[:2] + prc[:2] + fre[:1] + bur[:1]:
         ctx.sample({"kind": r["kind"], "name": r.get("name"), "actions": r.get("actions"), "windows": r.get("windows"),
                     "exact": r.get("exact"), "stopReturned": r.get("stopReturned"), "stopMs": r.get("stopMs"),
                     "stats": r.get("stats"), "findings": [f["sig"] for f in r.get("findings") or []]})
@@ -430,7 +448,16 @@ def run_conformance(ctx, t0, mc_future):
     kit.log("[c09] listener statistics done after %.1fs" % (time.time() - t0))
     trace_validation(ctx, by_id, fre)
     kit.log("[c09] trace validation done after %.1fs" % (time.time() - t0))
-    # driver health (infrastructure, never a verdict)
+    ctx.cov["burst"]["rounds"] = sum(r.get("steps", 0) for r in bur)
+    ctx.cov["rule"] = ("cases = (a) distinct TLC-simulated behaviours of ListenerGen (stratified: at least %d per named window) forced on a real "
+                       "listener, (b) processor scenarios protocol x placement of Stop x backend behaviour, (c) seeded free-running listener runs, "
+                       "(d) burst runs (8-16 simultaneous dials per round against connection limit 1..3, handler holds the connection); "
+                       "distinct by (limit, port busy, action sequence) / scenario name / script; non-trivial = passes through a named window or "
+                       "serves a connection (replays), every scenario, free and burst run (they all end in a judged Stop)" % per_window)
+    # driver health (infrastructure, never a verdict). A recorded violation of the property predicate stands:
+    # a defect in the code is the usual reason why the code cannot be kept in step with the model.
+    if ctx.violations or ctx.known_hits:
+        return
     errs = sum(1 for r in results if r.get("err"))
     if errs > len(results) * 0.15:
         raise kit.Inconclusive("driver unhealthy: %d of %d jobs ended with an infrastructure error" % (errs, len(results)))
@@ -438,10 +465,6 @@ def run_conformance(ctx, t0, mc_future):
     exact = [r for r in clean if r.get("exact")]
     if clean and len(exact) < len(clean) * 0.5:
         raise kit.Inconclusive("replay driver unhealthy: only %d of %d clean behaviours were followed exactly" % (len(exact), len(clean)))
-    ctx.cov["rule"] = ("cases = (a) distinct TLC-simulated behaviours of ListenerGen (stratified: at least %d per named window) forced on a real "
-                       "listener, (b) processor scenarios protocol x placement of Stop x backend behaviour, (c) seeded free-running listener runs; "
-                       "distinct by (limit, port busy, action sequence) / scenario name / script; non-trivial = passes through a named window or "
-                       "serves a connection (replays), every scenario and free run (they all end in a judged Stop)" % per_window)
 
 
 def replay_artefact(ctx):
